@@ -194,6 +194,8 @@ func mergeReports(rs []*Report) *Report {
 		out.Branches += r.Branches
 		out.Forks += r.Forks
 		out.Merges += r.Merges
+		out.PanicChecks += r.PanicChecks
+		out.PanicChecksSafe += r.PanicChecksSafe
 		out.Steps += r.Steps
 		out.Queries += r.Queries
 		out.NSat += r.NSat
